@@ -650,6 +650,7 @@ func main() {
 		{"connSrc", []string{"ConnSrc.lean"}, genConnSrc},
 		{"txnsSrc", []string{"TxnsSrc.lean"}, genTxnsSrc},
 		{"trackerSrc", []string{"TrackerSrc.lean"}, genTrackerSrc},
+		{"aggLoopSrc", []string{"AggLoopSrc.lean"}, genAggLoopSrc},
 	}
 	status := map[string]interface{}{}
 	failed := 0
